@@ -474,7 +474,8 @@ Definition cserver_run (maxsize : Z) := run cstate (list Z) cout cinit (cstep ma
 Inductive accept_err :=
 | AccNil                 (* err == nil *)
 | AccListenerClosed      (* errors.Is(err, ErrListenerIsClosed) *)
-| AccDeadlineOrCanceled  (* context.DeadlineExceeded / context.Canceled *)
+| AccDeadline            (* errors.Is(err, context.DeadlineExceeded) *)
+| AccCanceled            (* errors.Is(err, context.Canceled) *)
 | AccOther.              (* anything else (e.g. a temporary network error, a failed TLS accept) *)
 
 (* (continue accepting?, error reported to cfg.Errors?, Stop() called?) given whether s.ctx is done *)
@@ -482,19 +483,23 @@ Definition check_accept_error (e : accept_err) (ctx_done : bool) : bool * bool *
   match e with
   | AccNil => (true, false, false)
   | AccListenerClosed => (false, false, true)
-  | AccDeadlineOrCanceled => if ctx_done then (false, false, false) else (true, true, false)
+  | AccDeadline | AccCanceled => if ctx_done then (false, false, false) else (true, true, false)
   | AccOther => (true, false, false)
   end.
 
+(* the server wraps cfg.Errors: errors for which IsCancelOrCloseError holds (context.Canceled,
+   io.EOF, net.ErrClosed) are not passed on to the application's callback *)
+Definition user_visible (e : accept_err) : bool := match e with AccCanceled => false | _ => true end.
+
 (* Serve's accept loop over a scripted listener: number of Accept calls made
    before Serve returns (None = still accepting when the script is exhausted),
-   number of connections handed to serveConnection, number of reported errors *)
+   number of connections handed to serveConnection, number of errors the application's callback saw *)
 Fixpoint accept_loop (script : list (accept_err * bool)) (calls served reported : Z) : option Z * Z * Z :=
   match script with
   | [] => (None, served, reported)
   | (e, ctx_done) :: r =>
       let '(cont, rep, _) := check_accept_error e ctx_done in
-      let reported' := if rep then reported + 1 else reported in
+      let reported' := if rep && user_visible e then reported + 1 else reported in
       if cont then accept_loop r (calls + 1) (match e with AccNil => served + 1 | _ => served end) reported'
       else (Some (calls + 1), served, reported')
   end.
